@@ -95,9 +95,21 @@ def _print_Piecewise(
             lambda e: sympy.Mul(*e.args),
         )
 
-    expr = sympy.Piecewise(
-        *[(arg.expr, evaluate_numbers(arg.cond)) for arg in expr.args], evaluate=False
-    )
+    def evaluate_numbers_in_conditions(e):
+        # Also handle the conditions of conditionals nested inside the branches
+        if isinstance(e, sympy.Piecewise):
+            return sympy.Piecewise(
+                *[
+                    (evaluate_numbers_in_conditions(arg.expr), evaluate_numbers(arg.cond))
+                    for arg in e.args
+                ],
+                evaluate=False,
+            )
+        if e.args and e.has(sympy.Piecewise):
+            return e.func(*[evaluate_numbers_in_conditions(arg) for arg in e.args], evaluate=False)
+        return e
+
+    expr = evaluate_numbers_in_conditions(expr)
 
     try:
         simplified = sympy.simplify(expr)
